@@ -4,101 +4,32 @@ import (
 	"bytes"
 	"context"
 	"fmt"
-	"sort"
-	"sync"
 	"testing"
 
-	"github.com/vektah/gqlparser/v2/ast"
-	"github.com/vektah/gqlparser/v2/gqlerror"
-	"github.com/vektah/gqlparser/v2/parser"
-	"github.com/vektah/gqlparser/v2/validator"
 	"pgregory.net/rapid"
 
+	"vh/kit"
 	"vh/opgen"
 	"vh/oracle"
-	"vh/plan"
 	"vh/proj"
 	"vh/refexec"
 	"vh/univ"
 	"vh/vfrun"
 )
 
-type Case struct {
-	Project   string                  `json:"project"`
-	Query     string                  `json:"query"`
-	OpName    string                  `json:"operation_name,omitempty"`
-	Variables map[string]any          `json:"variables,omitempty"`
-	PlanSeed  uint64                  `json:"plan_seed"`
-	Overrides map[string]plan.Outcome `json:"overrides,omitempty"`
-}
-
-var (
-	srvMu   sync.Mutex
-	servers = map[string][]*proj.Server{}
-)
-
-func serversFor(name string) ([]*proj.Server, error) {
-	srvMu.Lock()
-	defer srvMu.Unlock()
-	if s, ok := servers[name]; ok {
-		return s, nil
-	}
-	var out []*proj.Server
-	for _, p := range proj.Vectors(name) {
-		s, err := p.Build()
-		if err != nil {
-			return nil, err
-		}
-		out = append(out, s)
-	}
-	if len(out) == 0 {
-		return nil, fmt.Errorf("no project %q linked", name)
-	}
-	servers[name] = out
-	return out, nil
-}
-
-// parse parses and validates; gqlparser decides what a valid operation is.
-func parse(schema *ast.Schema, query string) (*ast.QueryDocument, gqlerror.List) {
-	doc, err := parser.ParseQuery(&ast.Source{Input: query})
-	if err != nil {
-		return nil, gqlerror.List{err.(*gqlerror.Error)}
-	}
-	if errs := validator.Validate(schema, doc); len(errs) > 0 {
-		return nil, errs
-	}
-	return doc, nil
-}
-
-func reference(s *proj.Server, c Case, p *plan.Plan) (*refexec.Result, *vfrun.Failure) {
-	doc, errs := parse(s.Schema, c.Query)
-	if errs != nil {
-		return nil, vfrun.Failf("harness.invalid-operation", "%v\n%s", errs, c.Query)
-	}
-	op := doc.Operations.ForName(c.OpName)
-	if op == nil {
-		return nil, vfrun.Failf("harness.invalid-operation", "operation %q not found", c.OpName)
-	}
-	vars, err := validator.VariableValues(s.Schema, op, c.Variables)
-	if err != nil {
-		return nil, vfrun.Failf("harness.invalid-operation", "variables: %v", err)
-	}
-	return refexec.Execute(refexec.Config{Schema: s.Schema, Doc: doc, Op: op, Vars: vars, Plan: p, IsResolver: s.U.IsResolver}), nil
-}
+type Case = kit.Case
 
 func check(c Case) *vfrun.Failure {
-	srvs, err := serversFor(c.Project)
+	srvs, err := kit.Servers(c.Project)
 	if err != nil {
 		return vfrun.Failf("harness.no-project", "%v", err)
 	}
-	p := plan.New(c.PlanSeed)
-	for k, v := range c.Overrides {
-		p.Overrides[k] = v
-	}
-	ref, f := reference(srvs[0], c, p)
+	p := c.Plan()
+	pr, f := kit.Prepare(srvs[0], c)
 	if f != nil {
 		return f
 	}
+	ref := kit.Reference(srvs[0], pr, p)
 	var first []byte
 	unrep := false
 	for i, s := range srvs {
@@ -158,16 +89,10 @@ func classify(c Case, ref *refexec.Result) {
 	vfrun.SampleCat(c.Project, map[string]any{"case": c, "expected": oracle.Describe(ref)})
 }
 
-// candidates enumerates the keys a dry run reaches, for drawing overrides.
-type candidate struct {
-	Key  string
-	Kind string // "R" resolver, "D" directive
-}
-
 func gen(t *rapid.T) Case {
 	names := proj.Names()
 	c := Case{Project: rapid.SampledFrom(names).Draw(t, "project")}
-	srvs, err := serversFor(c.Project)
+	srvs, err := kit.Servers(c.Project)
 	if err != nil {
 		t.Fatalf("harness: %v", err)
 	}
@@ -175,57 +100,14 @@ func gen(t *rapid.T) Case {
 	op := opgen.Generate(t, s.Schema, opgen.Options{Mutation: rapid.IntRange(0, 4).Draw(t, "mutation?") == 0})
 	c.Query, c.OpName, c.Variables = op.Query, op.OpName, op.Variables
 	c.PlanSeed = rapid.Uint64Range(1, 1<<32).Draw(t, "planseed")
-	if _, errs := parse(s.Schema, c.Query); errs != nil {
+	pr, f := kit.Prepare(s, c)
+	if f != nil {
 		vfrun.Label("generated-operation-invalid(dropped)")
-		t.Skip("generated operation is not valid: " + errs.Error())
+		t.Skip("generated operation is not valid: " + f.Msg)
 	}
 	// dry run with the default plan to learn the reachable keys
-	p := plan.New(c.PlanSeed)
-	ref, f := reference(s, c, p)
-	if f != nil {
-		t.Skip(f.Msg)
-	}
-	var cands []candidate
-	seen := map[string]bool{}
-	for _, k := range ref.Resolvers {
-		if !seen[k] {
-			seen[k] = true
-			cands = append(cands, candidate{k, "R"})
-		}
-	}
-	for _, k := range ref.Dirs {
-		cands = append(cands, candidate{k, "D"})
-	}
-	sort.Slice(cands, func(i, j int) bool { return cands[i].Key < cands[j].Key })
-	n := rapid.IntRange(0, 3).Draw(t, "noverrides")
-	for i := 0; i < n && len(cands) > 0; i++ {
-		cd := cands[rapid.IntRange(0, len(cands)-1).Draw(t, "which")]
-		if c.Overrides == nil {
-			c.Overrides = map[string]plan.Outcome{}
-		}
-		if cd.Kind == "R" {
-			switch rapid.IntRange(0, 2).Draw(t, "okind") {
-			case 0:
-				c.Overrides[cd.Key] = plan.Outcome{Kind: plan.Error, Msg: fmt.Sprintf("boom%d", i)}
-			case 1:
-				// a nil slice in a non-null list position is gqlgen's empty list, not a null
-				if pi := ref.Pos[cd.Key]; pi.NonNull && pi.List {
-					c.Overrides[cd.Key] = plan.Outcome{Kind: plan.Error, Msg: fmt.Sprintf("boom%d", i)}
-				} else {
-					c.Overrides[cd.Key] = plan.Outcome{Kind: plan.Nil}
-				}
-			default:
-				c.Overrides[cd.Key] = plan.Outcome{Kind: plan.Value}
-			}
-		} else {
-			switch rapid.IntRange(0, 1).Draw(t, "dkind") {
-			case 0:
-				c.Overrides["D:"+cd.Key] = plan.Outcome{Kind: plan.Error, Msg: fmt.Sprintf("denied%d", i)}
-			default:
-				c.Overrides["D:"+cd.Key] = plan.Outcome{Kind: plan.DirNull}
-			}
-		}
-	}
+	ref := kit.Reference(s, pr, c.Plan())
+	c.Overrides = kit.DrawOverrides(t, kit.Candidates(ref), 3, false)
 	return c
 }
 
